@@ -199,6 +199,87 @@ def Session.pull (s : Session) : Session × PullRes :=
     | (.end, s') => (s', .ok ([], true))
     | (.fail e, s') => (s', .error e)
 
+/-! ### `Session::pull` / `Session::recv`, arm by arm (facts read off the source) -/
+
+/-- what an arm of the first `match self.recv()` (no lookahead held) does -/
+inductive FirstArm where
+  | hold        -- `Msg::Chunk(c) => c` : becomes `current`, go on to the peek
+  | emptyLast   -- `return Ok((Vec::new(), true))`
+  | err         -- `return Err(e)`
+  | other       -- unrecognised (pessimistic: treated as an error that the theorems do not accept)
+  deriving DecidableEq, Repr
+
+/-- what an arm of the second `match self.recv()` (the peek) does -/
+inductive PeekArm where
+  | more        -- `{ self.lookahead = Some(next); Ok((current, false)) }`
+  | moreDrop    -- `Ok((current, false))` without storing the peeked chunk
+  | last        -- `Ok((current, true))`
+  | err         -- `Err(e)`
+  | other
+  deriving DecidableEq, Repr
+
+structure PullFacts where
+  lookaheadFirst : Bool     -- `match self.lookahead.take() { Some(c) => c, None => … }`
+  firstChunk : FirstArm
+  firstEnd : FirstArm
+  firstFail : FirstArm
+  peekChunk : PeekArm
+  peekEnd : PeekArm
+  peekFail : PeekArm
+  closeIsFail : Bool        -- `recv`: `unwrap_or_else(|_| Msg::Fail(..))`
+  deriving DecidableEq, Repr
+
+def specPull : PullFacts :=
+  { lookaheadFirst := true, firstChunk := .hold, firstEnd := .emptyLast, firstFail := .err,
+    peekChunk := .more, peekEnd := .last, peekFail := .err, closeIsFail := true }
+
+def unrecognised : String := "unrecognised arm"
+
+def Session.recvA (A : PullFacts) (s : Session) : Msg × Session :=
+  match s.rx with
+  | [] => (if A.closeIsFail then .fail vanished else .end, s)
+  | m :: r => (m, { s with rx := r })
+
+def errOf : Msg → String
+  | .fail e => e
+  | _ => unrecognised
+
+def Session.peekA (A : PullFacts) (s : Session) (current : Bytes) : Session × PullRes :=
+  let (m, s') := s.recvA A
+  let arm := match m with
+    | .chunk _ => A.peekChunk
+    | .end => A.peekEnd
+    | .fail _ => A.peekFail
+  match arm with
+  | .more => (match m with | .chunk n => { s' with lookahead := some n } | _ => s', .ok (current, false))
+  | .moreDrop => (s', .ok (current, false))
+  | .last => (s', .ok (current, true))
+  | .err => (s', .error (errOf m))
+  | .other => (s', .error unrecognised)
+
+/-- `Session::pull` with the arms as extracted. -/
+def Session.pullA (A : PullFacts) (s : Session) : Session × PullRes :=
+  match (if A.lookaheadFirst then s.lookahead else none) with
+  | some c => Session.peekA A { s with lookahead := none } c
+  | none =>
+    let (m, s') := s.recvA A
+    let arm := match m with
+      | .chunk _ => A.firstChunk
+      | .end => A.firstEnd
+      | .fail _ => A.firstFail
+    match arm with
+    | .hold => s'.peekA A (match m with | .chunk c => c | _ => [])
+    | .emptyLast => (s', .ok ([], true))
+    | .err => (s', .error (errOf m))
+    | .other => (s', .error unrecognised)
+
+def pullAllA (A : PullFacts) : Nat → Session → List PullRes
+  | 0, _ => []
+  | n + 1, s =>
+    match s.pullA A with
+    | (s', .ok (c, false)) => .ok (c, false) :: pullAllA A n s'
+    | (_, r) => [r]
+
 /-- Pull until a terminal result (at most `fuel` pulls). -/
 def pullAll : Nat → Session → List PullRes
   | 0, _ => []
@@ -343,6 +424,65 @@ def Server.nexts (F : Facts) : Nat → Server → Nat → Server × List Resp
     let (sv1, r) := sv.next F id
     let (sv2, rs) := Server.nexts F n sv1 id
     (sv2, r :: rs)
+
+/-! ### concurrent `next` requests on one stream id
+
+`NextHandler::handle` has three lock regions: the table lookup (`table.get`, clones the `Arc`), the
+pull under the session lock (`done` check, `pull`, `done := true`), and the table removal before the
+response is framed.  Any number of requests for the same id, from any connections, interleave at
+that granularity; `cancel` is one more table-lock region. -/
+
+inductive Call where
+  | start                                   -- request received, table not yet consulted
+  | holding                                 -- holds the `Arc<Mutex<Session>>`, waiting for the session lock
+  | pulled (k : Nat) (r : PullRes)          -- left the session lock as its `k`-th holder with outcome `r`
+  | answered (k : Option Nat) (resp : Resp) -- response framed (`k = none`: unknown stream id)
+  deriving Repr
+
+structure Conc where
+  present : Bool            -- the table maps the id to the session
+  sess : Session            -- the shared session (alive while any call holds the `Arc`)
+  calls : List Call
+  log : List PullRes := []  -- outcomes of the session-lock regions, in lock order
+
+inductive Act where
+  | call (i : Nat)   -- request `i` performs its next lock region
+  | cancel           -- a `cancel` for the id
+  deriving Repr
+
+def Conc.step (F : Facts) (s : Conc) : Act → Conc
+  | .cancel => { s with present := false }
+  | .call i =>
+    match s.calls[i]? with
+    | none => s
+    | some .start =>
+      { s with calls := s.calls.set i (if s.present then .holding else .answered none .error) }
+    | some .holding =>
+      let x := s.sess.locked F
+      { s with sess := x.1, calls := s.calls.set i (.pulled s.log.length x.2), log := s.log ++ [x.2] }
+    | some (.pulled k r) =>
+      match r with
+      | .ok (c, last) =>
+        { s with present := if last && F.removeOnLast then false else s.present,
+                 calls := s.calls.set i (.answered (some k) (.chunk c (lastQuery F last))) }
+      | .error _ =>
+        { s with present := if F.removeOnErr then false else s.present,
+                 calls := s.calls.set i (.answered (some k) .error) }
+    | some (.answered _ _) => s
+
+def Conc.run (F : Facts) : Conc → List Act → Conc
+  | s, [] => s
+  | s, a :: r => Conc.run F (s.step F a) r
+
+/-- `n` successive passes through the session-lock region. -/
+def lockedAll (F : Facts) : Nat → Session → List PullRes
+  | 0, _ => []
+  | n + 1, s => (s.locked F).2 :: lockedAll F n (s.locked F).1
+
+def Call.idx : Call → Option Nat
+  | .pulled k _ => some k
+  | .answered k _ => k
+  | _ => none
 
 /-! ### client: `ChunkReader` (sync) -/
 
